@@ -10,7 +10,7 @@ import (
 type Cmd struct {
 	K      string `json:"k"`            // "p" probe, "r" pip:run, "t" pip:try
 	ID     int    `json:"id,omitempty"` // probe id
-	F      string `json:"f,omitempty"`  // probe failure: "" none, "ret" returns an error, "app" appends one to its scope
+	F      string `json:"f,omitempty"`  // probe failure: "" none, "ret" returns an error, "app" appends one to its scope, "eof" the line ends inside a quote (last line of a heredoc body only): it cannot be split into arguments, the command never begins and the loop fails
 	H      int    `json:"h,omitempty"`  // hold kind: 0 none, 1 Gosched×N, 2 sleep N µs
 	N      int    `json:"n,omitempty"`
 	Name   string `json:"name,omitempty"`
@@ -161,6 +161,9 @@ func (m *model) exec(cmds []*Cmd, mode, depth int) bool {
 		switch c.K {
 		case "p":
 			m.exp[c.ID] = cm
+			if c.F == "eof" {
+				m.exp[c.ID] = expNot // the line is refused before any command starts
+			}
 			if cm != expNot && c.F != "" {
 				failed = true
 			}
@@ -260,6 +263,9 @@ func silentFlag(s int) string {
 func (rd *renderer) line(c *Cmd) string {
 	switch c.K {
 	case "p":
+		if c.F == "eof" {
+			return fmt.Sprintf("probe --id=%d --note=\"the text ends inside this quote", c.ID)
+		}
 		return fmt.Sprintf("probe --id=%d", c.ID)
 	case "r":
 		if c.Sb != "" {
@@ -443,13 +449,13 @@ func (b *builder) genTry(rng *rand.Rand, depth int, fails *bool) *Cmd {
 // ---- bounded-exhaustive family --------------------------------------------------------------------
 
 const (
-	exhBodies   = 9
+	exhBodies   = 10
 	exhHandlers = 4
 	exhDrivers  = 2
 	exhTotal    = exhDrivers * exhBodies * exhHandlers * exhHandlers * exhHandlers
 )
 
-var exhBodyNames = []string{"ok", "fail-return", "fail-append-then-hold", "ok;fail-return", "task(ok);ok", "task(fail);ok", "try(body fails, handled);ok", "try(finally fails)", "task(sandbox Run returns an error);ok"}
+var exhBodyNames = []string{"ok", "fail-return", "fail-append-then-hold", "ok;fail-return", "task(ok);ok", "task(fail);ok", "try(body fails, handled);ok", "try(finally fails)", "task(sandbox Run returns an error);ok", "ok;line ending inside a quote"}
 var exhHandlerNames = []string{"-", "ok", "fail-return", "fail-append"}
 
 // exhProgram decodes idx into (driver, body kind, success, fail, finally kinds). The structure is
@@ -485,6 +491,9 @@ func exhProgram(idx int, rng *rand.Rand) (b *builder, top *Cmd, driver string, l
 		body = []*Cmd{inner, b.probe("", 1, 2)}
 	case 8:
 		body = []*Cmd{b.runFailSandbox(), b.probe("", 0, 0)}
+	case 9:
+		h, n := hold()
+		body = []*Cmd{b.probe("", h, n), b.probe("eof", 0, 0)}
 	case 7:
 		inner := b.try([]*Cmd{b.probe("", 0, 0)}, nil, nil, []*Cmd{b.probe(failKind(rng), 0, 0)})
 		body = []*Cmd{inner, b.probe("", 0, 0)}
